@@ -26,6 +26,11 @@ CHECKS = {
          "Random search over cascading instruction sets/programs x iteration budgets x both optimisation switches; every success is checked to be a genuine fixed point (independent of which fixed point was found). Exploration: budgets and programs are sampled (thorough runs all 15 budgets x 4 switch combinations per program).",
          "Span order = item order (checked); the reference matcher/evaluator as in C01.",
          "6/C02"),
+ "C10": ("exploration",
+         "metamorphic property testing over repetitions: the same job run on different threads, after random histories of other jobs, and in fresh processes of the real binary must give byte-identical records",
+         "Repetition of sampled jobs (generated programs with many sibling symbols/rules, corpus, mutants, command lines with several invalid parameters) under varying hash seeds, threads and histories; the full record (success, printed diagnostics, every written file, and for the binary stdout/stderr/exit status) must be identical. Sampling of seeds and histories: a leak needing one particular seed can be missed.",
+         "Rust's per-map, per-thread, per-process HashMap seeding provides the schedule variation; nothing is trusted beyond the code itself.",
+         "6/C10"),
  "C11": ("exploration",
          "exhaustive enumeration of output lengths x independent per-format decoders (round trip), plus proptest-generated multi-block programs",
          "Every single-block output length 0..4096 bits (quick: 0..520 and all boundary residues) with random, all-ones and all-zeros content is formatted in 19 format spellings and decoded by an independent decoder per format; multi-block outputs are sampled. Within the enumerated lengths the bit-carrying behaviour of each format is decided; contents are sampled.",
